@@ -20,3 +20,16 @@ CHECKS["C02"] = dict(
           "Bounds: n<=4 classes (5 sampled in thorough), <=3-4 methods, 1-2 positions + one keyword-only parameter; quick tier samples shapes. "
           "Recorded finding C02-integer-levels is excluded by a mechanism-level predicate inside the query."),
 )
+
+CHECKS["C12"] = dict(
+    engine="symx", category="model_checking", design_ref="DESIGN.md §6 C12",
+    technique="symbolic execution of the real typeorder over a symbolic class hierarchy (z3); mirror/reflexivity differential within each path class, closed-form laws as SMT formulas",
+    text=("For every pair of type terms up to the stated depth, typeorder runs in both directions once per class of hierarchies it cannot "
+          "distinguish; mirror symmetry and reflexivity are decided per class, and the laws the statement prescribes (order = subclassing on classes, "
+          "generic below its origin and argument-wise, union above / intersection below each member, dependent below its bound and the bound's "
+          "superclasses, Literal below its value type) are z3 formulas over the hierarchy variables checked for UNSAT of their negation. "
+          "Pair enumeration is exhaustive within the term universe; each pair's hierarchy space is exhausted by the solver."),
+    note=("Bounds: quick n=3 classes, depth-1 terms (45 terms, 990 pairs); thorough n=4, depth-2 (69 terms, 2415 pairs). Recorded hook-disagreement "
+          "findings are excused only for the listed constructor pair AND answer pair AND only when each answer is what that operand's own hook "
+          "returns. Whatever excluded. Trusted: z3, SymMeta stub (validated by native replay of one passing class per pair)."),
+)
